@@ -1,6 +1,6 @@
 """C05 Every instruction word executes with the specified semantics."""
 import astq
-from rules import a64hsem, a64sem, decode, interpsem, jit, jitcross, rv64, rvhsem, sshash, x86hsem, a64fp, rvfp
+from rules import a64hsem, a64sem, decode, interpsem, jit, jitcross, rv64, rvhsem, sshash, x86hsem, a64fp, rvfp, cfrcross
 
 LEVEL = 'other'
 TECHNIQUE = ('exhaustive path enumeration of the decoder against the specification tables + known-bits abstract interpretation of FP bit-pattern constructors; known-bits abstract execution of the A64 immediate helpers with the architectural meaning of the emitted instructions'
@@ -26,6 +26,8 @@ EXPLANATION += ' A64-MEM-HSEM, RV-MEM-HSEM.'
 EXPLANATION += ' A64-FP-HSEM.'
 
 EXPLANATION += ' RV-FP-HSEM.'
+
+EXPLANATION += ' A64-CFR-BITS, RV-CFR-BITS.'
 
 
 def run(ctx, R):
@@ -63,3 +65,5 @@ def run(ctx, R):
     a64hsem.rule_mem_hsem(ctx, R)
     a64fp.rule_fp_hsem(ctx, R)
     rvfp.rule_fp_hsem(ctx, R)
+    cfrcross.rule_a64(ctx, R)
+    cfrcross.rule_rv(ctx, R)
